@@ -25,6 +25,7 @@ from sa.pyfront import Program
 from sa.symex import Interp
 
 RULES = {
+    "R-C15-f": "the class reads as a dict through dict's own protocol: __len__ (entry count - the term of __eq__ that notices keys missing from self), __iter__, __contains__, __getitem__, keys, __bool__, __hash__ are inherited or merely delegate",
     "R-C15-e": "no library operation leaves an entry with an empty row list (== compares entry counts, so such an index differs from its twin with the same dense content): imported from C07 rule b",
     "R-C15-a": "a subclass of a builtin with rich comparisons that defines __eq__ defines __ne__ as its negation",
     "R-C15-b": "library-side construction paths end by normalising the common value (argument-less shift_common / from_array without common)",
@@ -338,6 +339,63 @@ def rule_d(prog, rep):
         rep.check(c == tm.FALSE, "R-C15-d", fi.fq, "constant result of __eq__ is False", "", "returns constant %s" % tm.show(c))
 
 
+DICT_PROTOCOL = ("__len__", "__iter__", "__contains__", "__getitem__", "__bool__", "keys", "__hash__")
+
+
+def rule_f(prog, rep):
+    """R-C15-f: __eq__ reads its operands through the dict protocol - len() as the number of ENTRIES (the only term that
+    notices keys of `other` missing from `self`), iteration and `in` over the KEYS.  That holds while the class inherits
+    those from dict: an override is accepted when it only delegates to dict's own, VIOLATED for __len__ otherwise (the
+    entry-count test of __eq__ then compares something else), UNDECIDED for the others."""
+    ii = prog.cls("iindexes", "iindex")
+    where = "iindexes:iindex"
+    n = 0
+    for name in DICT_PROTOCOL:
+        fi = ii.methods.get(name)
+        cons = "iindex inherits dict.%s (what == reads its operands through)" % name
+        n += 1
+        if fi is None:
+            rep.proved("R-C15-f", where, cons, "not overridden")
+            continue
+        I = Interp(prog, hints.param_types_for("iindexes"), hints.FIELD_TYPES, inline=False)
+        I.run(fi)
+        rets = [e["value"] for e in I.events if e.kind == "return" and not e.stack]
+
+        def delegates(v):
+            if v.op != "call":
+                return False
+            nm = tm.callee_name(v) or ""
+            return nm in ("builtins.dict.%s" % name, ".%s" % name) and tm.contains(v, lambda x: x.op in ("super", "call") and "super" in tm.show(x)[:20]) or nm == "builtins.dict.%s" % name
+        import ast as _ast
+
+        def ast_delegates(node):
+            """every return of the method is super().<name>(...) / super(C, self).<name>(...) / dict.<name>(self, ...)"""
+            rs = [x for x in _ast.walk(node) if isinstance(x, _ast.Return)]
+            if not rs:
+                return False
+            for r in rs:
+                v = r.value
+                if not (isinstance(v, _ast.Call) and isinstance(v.func, _ast.Attribute) and v.func.attr == name):
+                    return False
+                o = v.func.value
+                if isinstance(o, _ast.Call) and isinstance(o.func, _ast.Name) and o.func.id == "super":
+                    continue
+                if isinstance(o, _ast.Name) and o.id == "dict":
+                    continue
+                return False
+            return True
+        if ast_delegates(fi.node) or (rets and all(delegates(v) for v in rets)):
+            rep.proved("R-C15-f", fi.fq, cons, "overridden, but returns dict's own result")
+        elif name == "__len__":
+            rep.violated("R-C15-f", fi.fq, cons,
+                         "len(index) is redefined as %s: __eq__'s `len(self) == len(other)` no longer compares entry counts, so a == b holds whenever every entry of a is also in b - even if b has more entries (and b == a is False: == is not symmetric)"
+                         % (tm.show(rets[0])[:50] if rets else "something else"),
+                         witness={"history": "a = from_array([1,0,0,2]) ; b = from_array([1,0,3,2]) with the same shape and common: a's keys are a subset of b's -> a == b is True although the dense arrays differ"})
+        else:
+            rep.undecided("R-C15-f", fi.fq, cons, "the class overrides %s: what __eq__ (and every rule that reads an index as a dict) sees through it is not decided" % name)
+    return n
+
+
 def main(tier):
     rep = core.Report("C15", level="other", rules=RULES, tier=tier,
                       declined="count(common) == max count as a fact about data; a == b iff dense contents coincide over histories (values)")
@@ -347,6 +405,7 @@ def main(tier):
     rule_b(prog, rep)
     rule_c(prog, rep)
     rule_d(prog, rep)
+    rep.floor("R-C15-f", 7, rule_f(prog, rep))
     # R-C15-e: == compares the NUMBER of entries, so two indexes with the same dense content are equal only if neither
     # carries an empty entry: no library operation stores one (R-C07-b of the C07 analysis)
     import c07
